@@ -181,7 +181,7 @@ def run_property(pid, modname, tier, seed, workers=None, cap_s=None, only=None):
 
 
 def finish(pid, mod, spec, tier, seed, rep, total, capped, cap_s, wall, kf):
-    out_dir = os.path.join(common.VERIF, "replays", pid)
+    out_dir = os.path.join(common.OUT, "replays", pid)
     exit_code = 0
     lines = []
     # known findings
@@ -243,8 +243,8 @@ def finish(pid, mod, spec, tier, seed, rep, total, capped, cap_s, wall, kf):
         "wall_s": round(wall, 2),
         "violations": len(rep.violations),
     }
-    os.makedirs(os.path.join(common.VERIF, "evidence"), exist_ok=True)
-    with open(os.path.join(common.VERIF, "evidence", f"{pid}.json"), "w") as f:
+    os.makedirs(os.path.join(common.OUT, "evidence"), exist_ok=True)
+    with open(os.path.join(common.OUT, "evidence", f"{pid}.json"), "w") as f:
         json.dump(ev, f, indent=1, default=str)
     if exit_code == 0 and (len(rep.nt) + rep.nt_extra < 2 or (level == "model_checking" and (rep.states < 1 or rep.transitions < 1))):
         lines.append(f"VACUOUS: property={pid} only {len(rep.nt) + rep.nt_extra} non-trivial distinct case(s) - the check exercised nothing")
